@@ -179,14 +179,27 @@ func vpH_C07_chunks() {
 		docs = append(docs, doc)
 	}
 	seg := vpBuild(docs, 1025)
-	seg = vpLoadedVariant(seg)
+	shift := 0
+	if vpChoice("merged-behind-a-small-segment", 2) == 1 {
+		// merged behind a 2-document segment: every document number moves up by 2
+		// (the merge walks all doc-value chunks of the large input, empty ones included)
+		front := []*vpDoc{{fields: []*vpField{{name: "b", dv: true, length: 1, terms: []*vpTerm{{term: []byte("x"), freq: 1}}}}}, {}}
+		mb, _ := vpMergeBytes([]*Segment{vpBuild(front, 1025), seg}, []*roaring.Bitmap{nil, nil}, 1025)
+		seg = vpLoad(mb)
+		shift = 2
+	} else {
+		seg = vpLoadedVariant(seg)
+	}
 	exp := &vpExpect{dv: map[string]map[uint64][]string{"b": {}}}
 	for d, i := range carrier {
 		if i%2 == 1 {
-			exp.dv["b"][uint64(d)] = []string{"x", "y\xfe"}
+			exp.dv["b"][uint64(d+shift)] = []string{"x", "y\xfe"}
 		} else {
-			exp.dv["b"][uint64(d)] = []string{"x"}
+			exp.dv["b"][uint64(d+shift)] = []string{"x"}
 		}
+	}
+	if shift > 0 {
+		exp.dv["b"][0] = []string{"x"}
 	}
 	r, err := seg.DocumentValueReader([]string{"b"})
 	vpMust(err, "DocumentValueReader")
@@ -197,7 +210,7 @@ func vpH_C07_chunks() {
 		orders = [][]int{{5, 1023, 1024, 1025, 2047, 2049}, {2049, 2047, 1025, 1024, 1023, 5}, {1024, 2049, 5, 2047, 1023, 1025, 7, 2048}}
 	}
 	for _, n := range orders[vpChoice("order", len(orders))] {
-		vpDvVisit("chunks", r, uint64(n), []string{"b"}, exp)
+		vpDvVisit("chunks", r, uint64(n+shift), []string{"b"}, exp)
 	}
 	vpReach("C07 chunks end")
 }
